@@ -451,8 +451,8 @@ func (c07) Exec(script interface{}, c *core.Ctx) {
 		return
 	}
 	// a PAT far into a long stream (packets generated on the fly)
-	if s.Salt%700 == 0 {
-		far := 70000 + s.Salt%1000
+	if s.Salt == 999 {
+		far := 66000
 		gr := &c07GenReader{foreign: far, pat: patPkt}
 		var pl psi.PAT
 		var err error
